@@ -13,8 +13,7 @@ def ob(id, entry, quick, thorough, note, carves=(), pkg=".", reach=("read",), **
     d = {"id": "C03.x." + id, "property": "C03", "pkg": pkg, "entry": entry, "reach": list(reach),
          "cases": {"quick": [list(c) for c in quick], "thorough": [list(c) for c in thorough]},
          "note": note}
-    if pkg == ".":
-        d["extra_files"] = list(ROOT_FILES)
+    d["extra_files"] = list(ROOT_FILES)  # the root C03 harness files (compiled in every C03 run) use helpers of zz_verif_c02.go
     if carves:
         d["carves"] = list(carves)
     d.update(kw)
@@ -102,6 +101,63 @@ ob("symnum", "VerifC03XSymNum", q, uniq(t),
    "name: a sign followed by 2 (thorough 3) bytes over {+ - 1 9 . / e f}) printed under *print-base* 10/16/36 and read with "
    "*read-base* = *print-base*: the printer (Symbol.Readably -> readsAsOther) must put bars around exactly those names the "
    "reader would take as a number", max_case_s=900)
+
+# ---- nested structures under the printer control variables, flat and pretty ----
+q = [(0, 0), (1, 0), (2, 0), (3, 0), (4, 4), (4, 5), (4, 6), (0, 3), (3, 3), (1, 7), (1, 8), (1, 9), (0, 1), (2, 2), (3, 1), (4, 0)]
+t = [(sh, c) for sh in range(5) for c in range(10)]
+ob("nest", "VerifC03XNest", q, t,
+   "nested structures (lists of lists of vectors with dotted tails; vector of lists of vectors; depth 7; a 12-element list; "
+   "integers in every position) with mixed leaves: ONE SYMBOLIC fixnum |x| < 1300 used in several places, ONE SYMBOLIC "
+   "printable ASCII character, concrete symbols (needing bars, upper case, keyword), strings with escapes, ratio, single/double "
+   "float, bignum, nil, empty vector.  Printer setting per case: defaults; *print-length*/*print-level*/*print-lines* = 2^40 and "
+   "= max int (no limit); *print-miser-width* SYMBOLIC 0..200; base 16 with radix; base 2 and 36 without radix (read with "
+   "*read-base* = *print-base*); *print-case* :upcase/:capitalize/nil.  Each object is printed flat AND pretty with the right "
+   "margin SYMBOLIC in 1..200; both texts are read back by the real reader and must equal the original (so pretty printing "
+   "only changes white space)", reach=("read", "readpretty"), max_case_s=900, carves=["C03-integer-digits-spell-t-or-nil"])
+
+# ---- arrays ----
+q = [(d, 10, 0, 0) for d in range(14)] + [(1, 2, 0, 0), (1, 16, 1, 0), (7, 3, 0, 0), (7, 36, 0, 1), (1, 10, 0, 1), (8, 16, 0, 1), (2, 3, 0, 0), (13, 5, 0, 0), (4, 16, 0, 1)]
+t = [(d, b, r, pr) for d in range(14) for b in (2, 3, 4, 5, 10, 16, 36) for r in (0, 1) for pr in (0, 1)]
+ob("array", "VerifC03XArray", q, t,
+   "arrays of rank 0, 2, 3, 4 (14 dimension lists incl. zero dimensions in every position) whose first two elements are "
+   "SYMBOLIC fixnums (|x| < 40), the others concrete, printed with *print-array* t under *print-base* 2..36 with/without "
+   "*print-radix*, flat or pretty (margin 20), read back under *read-base* = *print-base*: dimensions and elements must "
+   "survive (the #nA rank prefix has to stay decimal)",
+   carves=["C03-array-rank-zero", "C03-array-zero-dimension", "C03-array-rank-in-print-base", "C03-integer-digits-spell-t-or-nil"], max_case_s=600)
+
+# ---- quote forms ----
+q = [(f, a, 0, 0) for f in range(5) for a in range(11)] + [(f, a, 1, 0) for f in range(5) for a in (0, 1, 2)] + [(f, a, 2, 0) for f in (0, 1, 3) for a in (0, 1)] + [(f, 1, 1, 1) for f in range(5)]
+t = [(f, a, w, pr) for f in range(5) for a in range(11) for w in range(3) for pr in (0, 1)]
+ob("quote", "VerifC03XQuote", uniq(q), t,
+   "the objects the reader builds for ' ` #' , ,@ (cl quote/backquote/function/comma/comma-at, made through the real "
+   "registry) around 11 argument kinds (symbol, list, SYMBOLIC fixnum, float, nil, string, character, vector, symbol with "
+   "bars, ratio, bignum), at top level, inside a list, or around another quote; printed by the real printer with their prefix "
+   "characters (flat or pretty with margin 12) and read back: same form and same argument",
+   carves=["C03-function-form-prints-as-name", "C03-quote-prefix-before-non-token"])
+
+# ---- printer control variables set from Lisp ----
+q = [(0, 10, 0, 2, 0, 0, 0, 1), (0, 16, 1, 1, 0, 1, 0, 0), (0, 2, 0, 3, 1, 2, 2, 0), (0, 36, 0, 0, 0, 3, 0, 0), (1, 10, 0, 2, 1, 0, 0, 1),
+     (1, 16, 0, 1, 0, 2, 2, 0), (1, 8, 1, 3, 0, 1, 0, 0), (2, 10, 0, 2, 1, 1, 2, 1), (2, 16, 1, 0, 0, 2, 0, 0), (2, 36, 0, 1, 0, 3, 1, 0),
+     (0, 10, 0, 2, 0, 0, 1, 0), (1, 10, 0, 2, 0, 0, 1, 0), (0, 16, 0, 2, 0, 0, 0, 1), (0, 2, 0, 2, 0, 0, 0, 1)]
+t = list(q) + [(h, b, r, pc, pr, lim, mi, a) for h in (0, 1, 2) for b in (2, 10, 16, 36) for r in (0, 1) for pc, pr, lim, mi, a in
+               ((0, 0, 0, 0, 0), (1, 1, 1, 2, 1), (2, 0, 2, 1, 0), (3, 1, 3, 0, 1))]
+ob("ctl", "VerifC03XCtl", q, uniq(t),
+   "the printer control variables given from Lisp through the real registry: bound with let, assigned with setq (the real "
+   "setters of the global printer, restored afterwards) or passed as write-to-string keywords: *print-base* x *print-radix* "
+   "(read back under *read-base* = *print-base* when no radix is printed) x *print-case* x *print-pretty* with the right margin "
+   "SYMBOLIC in 1..200 x *print-length*/*print-level*/*print-lines* unbound/nil/most-positive-fixnum/2^40 x *print-miser-width* "
+   "unbound/nil/SYMBOLIC 0..100 x *print-array* t; object (x (Foo #(x \"s\\\"q\") . x) |a b| #\\c [2x2 array]) with x a SYMBOLIC "
+   "fixnum |x| < 1300; (read-from-string (prin1-to-string obj)) / write-to-string must give back an equal object, and prin1 / "
+   "write to a string stream (with-output-to-string) must produce the same text as the -to-string function",
+   pkg="pkg/cl", carves=["C03-integer-digits-spell-t-or-nil", "C03-print-miser-width-nil-rejected", "C03-array-rank-in-print-base"],
+   max_case_s=900)
+
+q = [(w, s_, h) for w in range(6) for s_ in (0, 1) for h in (0, 1) if not (w == 5 and s_ == 1)]
+ob("var", "VerifC03XVar", q, q,
+   "a printer control variable (*print-length* *print-level* *print-lines* *print-right-margin* *print-miser-width* "
+   "*print-base*) assigned with setq or bound with let holds the assigned value when evaluated: value SYMBOLIC over all "
+   "non-negative fixnums (2..36 for the base), or nil",
+   pkg="pkg/cl", carves=["C03-print-limit-max-int-reads-nil", "C03-print-miser-width-nil-rejected"])
 
 OUT = os.environ.get("C03_OUT") or PATH
 json.dump(old + O, open(OUT, "w"), indent=1)
